@@ -58,4 +58,16 @@ MUTANTS = [
     M('sema:binexpr:quantum-left-unreported', 'sema', ['C13'], 'expr_to_asg_texpr', 'context.insert_error(IncompatibleTypesError, &bin_expr.lhs().unwrap());', ''),
     M('sema:return:always-reported', 'sema', ['C13'], 'expr_to_asg_texpr', 'if context.symbol_table().current_scope_type() == ScopeType::Global {', 'if true {'),
     M('sema:new_texpr_with_cast:no-cast-left', 'sema', ['C08'], 'BinaryExpr::new_texpr_with_cast', 'Cast::new(left, promoted_type.clone()).to_texpr()', 'left'),
+    # ---- SEMA stage 2 (statement analyser)
+    M('sema:gate:arity-swapped', 'sema', ['C09'], 'stmt_to_asg_stmt', '&Type::Gate(num_params, qubits.len()),', '&Type::Gate(qubits.len(), num_params),'),
+    M('sema:def:num-params-zero', 'sema', ['C09'], 'stmt_to_asg_stmt', '                    num_params,\n                    return_type: Box::new(return_type.clone()),', '                    num_params: 0,\n                    return_type: Box::new(return_type.clone()),'),
+    M('sema:qdecl:register-is-scalar', 'sema', ['C09'], 'stmt_to_asg_stmt', 'Some(width) => Type::QubitArray(ArrayDims::D1(width as usize)),', 'Some(width) => Type::Qubit,'),
+    M('sema:for:loop-var-in-enclosing-scope', 'sema', ['C07'], 'stmt_to_asg_stmt', '            with_scope!(context,  ScopeType::Local,\n                        let loop_var_symbol_id = context.new_binding(loop_var.string().as_ref(), &ty, &loop_var);\n                        let loop_body', '            let loop_var_symbol_id = context.new_binding(loop_var.string().as_ref(), &ty, &loop_var);\n            with_scope!(context,  ScopeType::Local,\n                        let loop_body'),
+    M('sema:if:else-in-then-scope', 'sema', ['C07', 'C03'], 'stmt_to_asg_stmt', '            );\n            with_scope!(context,  ScopeType::Local,\n                        let else_branch', '                        let else_branch'),
+    M('sema:while:scope-not-left', 'sema', ['C03', 'C07'], 'stmt_to_asg_stmt', '            with_scope!(context,  ScopeType::Local,\n                        let loop_body = block_or_stmt_to_asg_type(while_stmt.block_or_stmt(), context);\n            );', '            context.symbol_table.enter_scope(ScopeType::Local);\n            let loop_body = block_or_stmt_to_asg_type(while_stmt.block_or_stmt(), context);'),
+    M('sema:gate:name-bound-before-body', 'sema', ['C07'], 'stmt_to_asg_stmt', '            let name_node = gate.name().unwrap();\n', '            let name_node = gate.name().unwrap();\n            let _early = context.new_binding(name_node.string().as_ref(), &Type::Gate(0, 0), &name_node);\n'),
+    M('sema:bind_params:wrong-type', 'sema', ['C09'], 'bind_parameter_list', 'context.new_binding(param.text().as_ref(), typ, &param)', 'context.new_binding(param.text().as_ref(), &Type::Qubit, &param)'),
+    M('sema:expr_list:all-dropped', 'sema', ['C06'], 'expression_list_to_asg_texpr', '.filter_map(|x| expr_to_asg_texpr(Some(x), context))', '.filter_map(|x| { let _y = expr_to_asg_texpr(Some(x), context); None })'),
+    M('sema:include:nested-evaluated', 'sema', ['C03'], 'block_expr_to_asg_stmt_list', 'fn block_expr_to_asg_stmt_list(block: synast::BlockExpr, context: &mut Context) -> Vec<asg::Stmt> {', 'fn block_expr_to_asg_stmt_list(block: synast::BlockExpr, context: &mut Context) -> Vec<asg::Stmt> {\n    context.symbol_table.exit_scope();'),
+    M('sema:block_or_stmt:unwrap-back', 'sema', ['C03'], 'block_or_stmt_to_asg_type', 'match stmt_to_asg_stmt(stmt, context) {\n                Some(stmt) => asg::Block::new(vec![stmt]),\n                None => asg::Block::new(Vec::new()),\n            }', 'asg::Block::new(vec![stmt_to_asg_stmt(stmt, context).unwrap()])'),
 ]
